@@ -82,7 +82,7 @@ CORRUPTIONS = ['del-data', 'del-meta', 'del-backup-first', 'del-backup-last', 'd
                'flip-to-extern', 'move-extern-first', 'empty-manifest', 'garbage-line', 'garbage-file', 'truncate-zstd',
                'stray-root-file', 'stray-group-file', 'hidden-root', 'hidden-group', 'rename-backup', 'temp-backup',
                'stray-in-backup', 'crlf-lines', 'none', 'temp-other-date', 'first-gone-with-temp', 'binary-garbage-line',
-               'extern-before-its-unique']
+               'extern-before-its-unique', 'suffix-backup', 'prefix-backup', 'suffix-group']
 
 
 def corrupt(rng, root, kind):
@@ -96,6 +96,13 @@ def corrupt(rng, root, kind):
         open(os.path.join(root, 'stray.txt'), 'w').close(); return True
     if kind == 'hidden-root':
         open(os.path.join(root, '.hidden'), 'w').close(); return True
+    if kind == 'suffix-group':
+        # a directory whose name only begins with a group name (an empty one, and one with the contents of the group)
+        if rng.random() < 0.5:
+            os.mkdir(gp + rng.choice(['.old', '~', '-1']))
+        else:
+            os.rename(gp, gp + rng.choice(['.old', '~', '-1']))
+        return True
     if kind == 'stray-group-file':
         open(os.path.join(gp, 'stray'), 'w').close(); return True
     if kind == 'hidden-group':
@@ -150,6 +157,11 @@ def corrupt(rng, root, kind):
         shutil.rmtree(os.path.join(gp, backups[-1])); return True
     if kind == 'rename-backup':
         os.rename(bp, os.path.join(gp, '1999.01.01-00:00:00')); return True
+    if kind == 'suffix-backup':
+        # a complete backup under a name that only begins with a backup name is an unexpected entry
+        os.rename(bp, bp + rng.choice(['.old', '~', '.tmp', ' ', '0'])); return True
+    if kind == 'prefix-backup':
+        os.rename(bp, os.path.join(gp, rng.choice(['x', '_', '0']) + os.path.basename(bp))); return True
     if kind == 'stray-in-backup':
         open(os.path.join(bp, 'extra'), 'w').close(); return True
     mp = os.path.join(bp, 'metadata.zst')
@@ -349,17 +361,39 @@ def check(ctx):
         ng = rng.randint(0, 4)
         groups = [sorted(NOW - rng.randint(0, 200000) for _ in range(rng.choice([0, 1, 2]))) for _ in range(ng)]
         age_cases.append({'groups': groups, 'now': NOW, 'max_age': rng.choice([None, 60, 3600, 86400, 129600]), 'spec': None})
-    al_model = [core.req('age', {'groups': c['groups'], 'now': c['now'], 'max_age': c['max_age']}) for c in age_cases]
-    al_impl = [core.req('age', {'groups': [[store.backup_name(t) for t in g] for g in c['groups']], 'max_age': c['max_age']}) for c in age_cases]
-    env = dict(os.environ, TZ='UTC', LD_PRELOAD=store.ensure_shim(), VSBSHIM_TIME='%d.000000000' % NOW, VSBSHIM_ONLY='vsb-harness')
-    aimpl = core.run_lines(core.harness_exe(ctx), al_impl, env=env)
-    amodel = core.run_lines(core.model_exe(), al_model)
-
     def aview_impl(i):
         if isinstance(i, dict) and 'errors' in i:
             cls = [e for e in i['errors'] if e != 'empty-group']
             return {'alarm': any(e in ('no-backups', 'stale') for e in cls), 'class': cls[0] if cls else 'none'}
         return i
+
+    def age_oracle_tz(case, i):
+        newest = None
+        for g in case['groups']:
+            if g:
+                newest = g[-1]
+        want = newest is None or (case['max_age'] is not None and newest <= case['now'] and case['now'] - newest >= case['max_age'])
+        if isinstance(i, dict) and 'alarm' in i and i.get('alarm') != want:
+            return 'age alarm %s, expected %s (newest backup %s old, threshold %s)' % (i.get('alarm'), want, None if newest is None else case['now'] - newest, case['max_age'])
+        return None
+
+    al_model = [core.req('age', {'groups': c['groups'], 'now': c['now'], 'max_age': c['max_age']}) for c in age_cases]
+    al_impl = [core.req('age', {'groups': [[store.backup_name(t) for t in g] for g in c['groups']], 'max_age': c['max_age']}) for c in age_cases]
+    env = dict(os.environ, TZ='UTC', LD_PRELOAD=store.ensure_shim(), VSBSHIM_TIME='%d.000000000' % NOW, VSBSHIM_ONLY='vsb-harness')
+    aimpl = core.run_lines(core.harness_exe(ctx), al_impl, env=env)
+    amodel = core.run_lines(core.model_exe(), al_model)
+    # the same grid in other time zones: backup names are local times, so are read back as local times
+    tz_runs = 0
+    for tz, off in (('XXX5', -5 * 3600), ('YYY-3', 3 * 3600), ('ZZZ-5:45', 5 * 3600 + 45 * 60)):
+        sub = [c for k, c in enumerate(age_cases) if k % 3 == tz_runs % 3 or k >= len(age_cases) - 104][:150]
+        li = [core.req('age', {'groups': [[store.backup_name(t + off) for t in g] for g in c['groups']], 'max_age': c['max_age']}) for c in sub]
+        ri = core.run_lines(core.harness_exe(ctx), li, env=dict(env, TZ=tz))
+        for c, i in zip(sub, ri):
+            msg = age_oracle_tz(c, aview_impl(i))
+            if msg:
+                ctx.violation('property', 'age (time zone %s, names are local times): %s' % (tz, msg), {'case': dict(c, tz=tz)})
+                break
+        tz_runs += 1
 
     def aview_model(m):
         if isinstance(m, dict) and 'verdict' in m:
@@ -396,5 +430,5 @@ def check(ctx):
         'label_distribution': labels, 'kill_histories': kh,
         'disagreements_checked': st['cases'] + st2['cases'] + st3['cases'],
     })
-    ctx.assumptions += ['faked CLOCK_REALTIME drives SystemTime::now()', 'TZ=UTC (chrono Local)', 'ASCII digits in names and durations',
+    ctx.assumptions += ['faked CLOCK_REALTIME drives SystemTime::now()', 'time zones UTC, UTC-5, UTC+3, UTC+5:45 without daylight saving (chrono Local)', 'ASCII digits in names and durations',
                         'kill/fault histories are exercised by C03; here histories consist of completing runs']
